@@ -233,15 +233,15 @@ Proof.
   destruct (f1_walk _ _ _ _ _ _ _ _ _ _); [discriminate|discriminate|contradiction].
 Qed.
 
-(* without that arithmetic side condition the statement is false of the faithful model: u16 overflow panics
-   are reachable (replayed on the real code: patchmap.rs `first_new_entry_index + i`, `index * field_width * 2`) *)
+(* without that arithmetic side condition the statement is false of the faithful model: a u16 overflow panic
+   is reachable with a 40-byte table (replayed on the real code: patchmap.rs `first_new_entry_index + i`; the
+   second site, `index * field_width * 2`, needs >= 16384 entry records, i.e. a 64 KiB table, and is replayed on the
+   real code only) *)
 Lemma f1_total_refuted_lemma :
-  f1_intersect 65535 10 0 [0;1;2;3;0;1;2;3;0;1;2;3;0;1;2] [1;2;3] (repeat 0 8192) 3
-               (Some [(1818847073, 65535, 2)]) [0;1;0;2;0;1;0;2] None = F1Panic /\
-  (exists data, ilen data = 65540 /\
-     f1_intersect 65535 10 0 [0;1;2;3;0;1;2;3;0;1;2;3;0;1;2] [1;2;3] (repeat 0 8192) 3
-                  (Some [(1818847073, 100, 16385)]) data None = F1Panic).
+  exists maxe maxg first gentries gids bitmap pf recs data feats,
+    f1_intersect maxe maxg first gentries gids bitmap pf recs data feats = F1Panic.
 Proof.
-  split; [vm_compute; reflexivity|].
-  exists (repeat 0 65540). split; [vm_compute; reflexivity|vm_compute; reflexivity].
+  exists 65535, 10, 0, [0;1;2;3;0;1;2;3;0;1;2;3;0;1;2], [1;2;3], [0], 3,
+         (Some [(1818847073, 65535, 2)]), [0;1;0;2;0;1;0;2], None.
+  vm_compute. reflexivity.
 Qed.
